@@ -133,6 +133,41 @@ pub fn run_tournament<const N: usize, const K: usize, R: rand::RngCore>(vals: [u
     (widx, mask)
 }
 
+/// plain value populations (equal values at different positions ARE equal individuals): the winner
+/// must still be at least as good as k-1 OTHER members (by position), and the best when k = n.
+/// Catches implementations that confuse equal individuals with the same individual.
+pub fn run_tournament_plain<const N: usize, const K: usize, R: rand::RngCore>(vals: [u8; N], rng: &mut R) {
+    let w = match Tournament::new(NonZeroUsize::new(K).unwrap()).select(&vals, rng) {
+        Ok(w) => w,
+        Err(_) => panic!("C07 tournament of size <= population size failed"),
+    };
+    let mut widx = N;
+    let mut i = 0;
+    while i < N {
+        if std::ptr::eq(w, &vals[i]) {
+            widx = i;
+        }
+        i += 1;
+    }
+    assert!(widx < N, "C07 tournament winner is not a population member");
+    let mut no_better = 0;
+    let mut i = 0;
+    while i < N {
+        if i != widx && vals[i] <= *w {
+            no_better += 1;
+        }
+        i += 1;
+    }
+    assert!(no_better >= K - 1, "C07 tournament winner (duplicate-laden population) is not at least as good as k-1 others");
+    if K == N {
+        let mut i = 0;
+        while i < N {
+            assert!(vals[i] <= *w, "C07 tournament over the whole population (with duplicates) is not best selection");
+            i += 1;
+        }
+    }
+}
+
 /// the sampled set does not depend on the individuals' values (same stream => same set)
 pub fn sampled_set_independent<const N: usize, const K: usize, const T: usize>(v1: [u8; N], v2: [u8; N], tape: TapeRng<T>) {
     let mut r1 = tape.clone();
@@ -196,6 +231,35 @@ mod proofs {
     }
     #[cfg(feature = "thorough")]
     tour! { c07_t_tournament_4_1 = <4, 1>; c07_t_tournament_4_4 = <4, 4>; c07_t_tournament_5_2 = <5, 2>; c07_t_tournament_5_3 = <5, 3>; c07_t_tournament_5_4 = <5, 4>; }
+
+    macro_rules! plain { ($($name:ident = <$n:literal, $k:literal>;)*) => {$(
+        #[kani::proof]
+        #[kani::unwind(14)]
+        fn $name() {
+            let mut rng = SymRng::new();
+            let vals: [u8; $n] = kani::any();
+            run_tournament_plain::<$n, $k, _>(vals, &mut rng);
+            crate::witness!($n < 2 || vals[0] == vals[1], "WITNESS duplicate individuals");
+        }
+    )*}; }
+    plain! { c07_plain_3_2 = <3, 2>; c07_plain_4_3 = <4, 3>; c07_plain_4_2 = <4, 2>; c07_plain_3_3 = <3, 3>; }
+
+    // concrete duplicate-laden populations, symbolic stream (cheap even when the selector's code is heavy)
+    macro_rules! duptab { ($($name:ident = <$n:literal, $k:literal> $vals:expr;)*) => {$(
+        #[kani::proof]
+        #[kani::unwind(14)]
+        fn $name() {
+            let mut rng = SymRng::new();
+            run_tournament_plain::<$n, $k, _>($vals, &mut rng);
+            crate::witness!(true, "WITNESS reached");
+        }
+    )*}; }
+    duptab! {
+        c07_duptab_4_3_a = <4, 3> [5, 5, 1, 1];
+        c07_duptab_4_3_b = <4, 3> [1, 5, 1, 5];
+        c07_duptab_3_2 = <3, 2> [7, 2, 7];
+        c07_duptab_4_2 = <4, 2> [3, 3, 3, 9];
+    }
 
     macro_rules! indep { ($($name:ident = <$n:literal, $k:literal>;)*) => {$(
         #[kani::proof]
